@@ -151,7 +151,7 @@ def operation_shape(sched):
     return out
 
 
-def drive(spec, passes=1, keep_stream=True, max_actions=2_000_000, observe=True):
+def drive(spec, passes=1, keep_stream=True, max_actions=2_000_000, observe=True, interfere=None):
     """Run the real class, feeding every action to the executor.
 
     Returns dict(viol=[(prop, clause, detail)], stream=[akey...], pass_streams, stats,
@@ -173,6 +173,18 @@ def drive(spec, passes=1, keep_stream=True, max_actions=2_000_000, observe=True)
         res["stats"] = _stats(ex)
         return res
     res["assumption"] = operation_shape(sched)
+    # interference: another live schedule (built first, advanced one action after each action of the
+    # schedule under test).  Objects must not share state, so this changes nothing on a correct tree.
+    other = None
+    if interfere is not None:
+        try:
+            with contextlib.redirect_stdout(io.StringIO()), warnings.catch_warnings():
+                warnings.simplefilter("ignore")
+                other = CLASSES[interfere[0]](*interfere[1], **_kw(interfere[2]))
+                sched = CLASSES[name](*args, **_kw(kwargs))     # built while the other one is alive
+                next(other)
+        except Exception:
+            other = None
     if observe:
         try:
             if sched.is_running is not False:
@@ -200,6 +212,11 @@ def drive(spec, passes=1, keep_stream=True, max_actions=2_000_000, observe=True)
                         ex.v("C09", "stream_ended_early", "StopIteration after %d actions" % count)
                     break
                 count += 1
+                if other is not None:
+                    try:
+                        next(other)
+                    except Exception:
+                        other = None
                 ex.apply(a)
                 if keep_stream:
                     res["stream"].append(akey(a))
